@@ -19,7 +19,7 @@ ASSUMPTIONS = ["per-cell texts (str, repr, f'{v:g}', f'{v:.1f}', isoformat), nam
                "a data cell equal to the string '...' prints exactly like the ellipsis (known ambiguity): not generated; neither "
                "are column names equal to '...', nor strings/names containing line breaks (they break the line structure), "
                "nor ints beyond Python's 4300-digit str() limit; for non-str names only 'no exception, object unchanged' is judged",
-               "an empty 1-D vector prints '# empty ...' (no dtype): accepted as stating zero elements",
+               "an empty 1-D vector prints only its footer (count 0 and dtype; since the repair d0def31)",
                "the content of the dot-accessor header row is C17's subject: only its presence is checked here",
                "set_repr_rows is restored to None after every case; the model takes the value set_repr_rows(None) resets to "
                "(Gen.reprRowsReset) and MAX_HEAD_COLS (Gen.maxHeadCols) from the source on every run"]
